@@ -220,7 +220,9 @@ func C01(p *Prog, r *Run) {
 		tm := NewTermer(fn)
 		n := 0
 		for _, c := range CallsTo(fn, p.Func(PkgN, "NewNNode")) {
-			if f, _, ok := recordField(tm.Of(c.Common().Args[0])); !ok || f != "NewNodeId" {
+			// (terms as seen where the node is created: a record handed out of the scan as `rec, found` / a pointer is the
+			// record itself where it is known to have been found)
+			if f, _, ok := recordField(NewTermerAt(fn, c.Block()).Of(c.Common().Args[0])); !ok || f != "NewNodeId" {
 				continue
 			}
 			n++
